@@ -168,6 +168,11 @@ def nontrivial(ln, model_out):
 
 def search(ln, a, b, harness, driver):
     p = ln.split()
+    if p[0].startswith("core3."):
+        # the proved translation rejects what the implementation accepts (or the other way round): the text itself is the failing input
+        if (a.split()[0] == "ok") != (b.split()[0] == "ok"):
+            return {"ops": [ln], "impl": [a], "model": [b]}
+        return None
     if p[0] == "num.modapi" and a.startswith("panic"):
         return {"ops": [ln], "impl": [a], "model": [b]}      # a module built through the builder methods cannot be printed
     toks = p[1:]
